@@ -144,7 +144,7 @@ def patch_affine():
             c = symx.ctx()
             c.fresh_n += 1
             cc, ss = z3.Real(f"_cos{c.fresh_n}"), z3.Real(f"_sin{c.fresh_n}")
-            c.add(cc * cc + ss * ss == 1)
+            c.add_axiom(cc * cc + ss * ss == 1)
             return symx.SymReal(cc), symx.SymReal(ss)
         return _orig_csd(deg)
 
